@@ -1,7 +1,7 @@
 (* C02 — linked instances converge on the shared device tree (partial: the point exchange is
    proved; the recursion of the catch-up is an executable model validated against two real
    linked instances on every run).  Statements only; proofs in Sync/Proofs.v. *)
-From Verif Require Import Base.Bytes Store.GraphCount Store.GraphWalk Store.Model Store.Check Store.ProofsRows Store.ProofsHash Store.ProofsTop Store.Concurrent Sync.Model Sync.Proofs Sync.ProofsEdge Sync.Frame Sync.Converge.
+From Verif Require Import Base.Bytes Store.GraphCount Store.GraphWalk Store.Model Store.Check Store.ProofsRows Store.ProofsHash Store.ProofsTop Store.Concurrent Sync.Model Sync.Proofs Sync.ProofsEdge Sync.Frame Sync.Converge Sync.ConvergeExample.
 
 (* the two comparison loops of a catch-up pass: for any two row lists (one row per identity,
    normalised keys, a tie in time meaning the same point) both sides end up, for every identity,
@@ -118,6 +118,23 @@ Theorem C02_recursion_converges :
     good (fst DU) /\ good (snd DU).
 Proof. exact sync_converges. Qed.
 Print Assumptions C02_recursion_converges.
+
+(* non-vacuity: two reachable stores holding the device tree d -> {c -> g, h}, different after an outage on
+   d, c, g and the edge (c, g), equal on h (whose hashes are equal: the faithful skip is exercised), meet every
+   hypothesis (Sync/ConvergeExample.v), so the theorem applies to them; evaluating the pass confirms it *)
+Theorem C02_recursion_example :
+  let DU := sync_node false 2 cD cU id_dev str_root id_dev 0%Z in
+  njoined cD cU (fst DU) (snd DU) id_dev /\
+  (forall c, In c (kids KD id_dev) -> joined KD cD cU (fst DU) (snd DU) c).
+Proof. exact recursion_example. Qed.
+Print Assumptions C02_recursion_example.
+
+Example C02_recursion_example_evaluated :
+  forallb (fun x => rows_eqb (nrows (fst outcome) x) (nrows (snd outcome) x)) [id_dev; id_c; id_g; id_h] = true /\
+  forallb (fun qx => rows_eqb (edge_rows (fst outcome) (fst qx) (snd qx)) (edge_rows (snd outcome) (fst qx) (snd qx)))
+          [(id_dev, id_c); (id_c, id_g); (id_dev, id_h)] = true /\
+  rows_eqb (nrows cD id_g) (nrows cU id_g) = false /\ rows_eqb (edge_rows cD id_c id_g) (edge_rows cU id_c id_g) = false.
+Proof. exact outcome_agrees. Qed.
 
 (* What the hash short-cut of syncNode cannot see (recorded finding equal-hash-different-content).
    A catch-up pass on a node whose compared hashes are equal returns both stores unchanged whatever lies
